@@ -77,7 +77,8 @@ theorem getConn_of_alive (b : B) (c : Nat) (h : b.alive c = true) :
 
 /-- `Subscribe` accepts (filter, QoS byte): the QoS byte is 0, 1 or 2, the
 filter does not begin with '$' and its level walk ends without error
-(`entryLevels t = levels t` unless `checkSys t`, and then it is `([], false)`) -/
+(`entryLevels t = levels t` unless `checkTopic t` - the topic is empty or begins
+with '$' -, and then it is `([], false)`) -/
 def accepts (t : Bytes) (q : Nat) : Bool := validQos q && (entryLevels t).2
 
 theorem subscribe_snd (mt : MemTopics) (mq : Nat) (t : Bytes) (q c : Nat) :
@@ -136,6 +137,20 @@ theorem modelCode_good (t : Bytes) (q : Nat) (hg : good t = true) :
     modelCode t q = Mqtt.Spec.Broker.subCode t q := by
   unfold modelCode Mqtt.Spec.Broker.subCode
   rw [accepts_good t q hg, facts_maxQos]
+
+/-- acceptance for every filter that does not begin with '$' - empty levels
+(finding B3) and the empty filter (finding B6, repaired) included: the store
+accepts exactly the valid filters -/
+theorem accepts_not_dollar (t : Bytes) (q : Nat) (hd : Mqtt.Spec.Match.dollar t = false) :
+    accepts t q = (Mqtt.Spec.Match.validFilter t && decide (q ≤ 2)) := by
+  unfold accepts
+  rw [Mqtt.Proofs.Topics.validQos_iff, Mqtt.Proofs.Topics.entryLevels_ok t, hd]
+  cases Mqtt.Spec.Match.validFilter t <;> cases decide (q ≤ 2) <;> rfl
+
+theorem modelCode_not_dollar (t : Bytes) (q : Nat) (hd : Mqtt.Spec.Match.dollar t = false) :
+    modelCode t q = Mqtt.Spec.Broker.subCode t q := by
+  unfold modelCode Mqtt.Spec.Broker.subCode
+  rw [accepts_not_dollar t q hd, facts_maxQos]
 
 /-! ### the SUBSCRIBE loop -/
 
